@@ -2,6 +2,7 @@ import Driver.Util
 import Paroxy.Model.MakeDb
 import Paroxy.Spec.MakeDb
 import Paroxy.Model.JsonText
+import Paroxy.Model.JsonDb
 open Lean Paroxy Paroxy.DB
 
 namespace Driver.C11
@@ -213,6 +214,18 @@ def dumpsH : Handler := fun j => do
   pure (Json.mkObj [("dumps", jNats (JsonText.dumps2 v)), ("text", jNats text),
     ("ok", Json.bool (JsonText.J.ok v)), ("back", Json.bool (JsonText.loadsIs text v))])
 
+/-- `c11.db_json`: the text `get_json()` returns for the database `makeDb` computes: `getJsonText (dbToJson db)`
+(Model/JsonDb.lean), with the hypotheses of `C11_db_json_roundtrip` (`ok` = `dbOk db`) and its conclusion (`back`). -/
+def dbJsonH : Handler := fun j => do
+  let (progs, table) ← readProgs j
+  match makeDb (oracle table) progs with
+  | .error e => pure (jErr e)
+  | .ok db =>
+    let v := JsonDb.dbToJson db
+    let text := JsonText.getJsonText v
+    pure (Json.mkObj [("text", jNats text), ("ok", Json.bool (JsonDb.dbOk db)),
+      ("back", Json.bool (JsonText.loadsIs text v))])
+
 /-- `c11.compact`: the `regex.sub` of `get_json` on an arbitrary text. -/
 def compactH : Handler := fun j => do
   let t ← natList (← j.getObjVal? "t")
@@ -228,6 +241,6 @@ def handlers : List (String × Handler) :=
    ("c11.spec_closure", specClosure), ("c11.exportations", exportationsH),
    ("c11.spec_exportations", specExportationsH), ("c11.relabel", relabelH),
    ("c11.prepared", preparedH), ("c11.prepared_taxa", preparedTaxaH), ("c11.collect", collectH), ("c11.collect_labels", collectLabelsH), ("c11.line_numbers", lineNumbers),
-   ("c11.dumps", dumpsH), ("c11.compact", compactH), ("c11.loads", loadsH)]
+   ("c11.dumps", dumpsH), ("c11.db_json", dbJsonH), ("c11.compact", compactH), ("c11.loads", loadsH)]
 
 end Driver.C11
